@@ -207,6 +207,19 @@ class Check:
             else:
                 self.discharged += 1
                 self.notes["axioms"][t] = sorted(ax)
+        if self.tier == "thorough":
+            # independent re-check of the compiled property module (and everything it imports) by leanchecker
+            mod = {"C07": "C06", "C09": "C08"}.get(self.pid, self.pid)
+            if (LEAN / "OsmtProofs" / "Properties" / f"{mod}.lean").exists():
+                with Lock(WORK / ".lock-lean"):
+                    r = sh(["lake", "env", "leanchecker", f"OsmtProofs.Properties.{mod}"], cwd=LEAN)
+                self.obligations += 1
+                if r.returncode == 0:
+                    self.discharged += 1
+                    self.notes["leanchecker"] = f"OsmtProofs.Properties.{mod}: accepted"
+                else:
+                    self.violation("proof", f"leanchecker rejects OsmtProofs.Properties.{mod}", {"log": (r.stdout + r.stderr)[-2000:]},
+                                   found_input=False)
         return not self.violations
 
     def obligation(self, ok):
